@@ -61,8 +61,9 @@ CLAIMED = {
             "Sampled inputs; the inspector and libbz2 are trusted after calibration.", "DESIGN.md 3 (C02)"),
     "C05": ("other", "TLC-generated single-defect and valid files (spec/BZ2.tla, simulation mode) replayed into the binary + inspector-judged mutations",
             "BZ2.tla draws files with exactly one defect from the property's list (and valid ones); they and field-aware / "
-            "byte-level mutations of real streams are decoded by the real binary under several configurations.  Rule: exit 0 "
-            "implies the reference says valid and the bytes equal the reference decoding.",
+            "byte-level mutations of real streams are decoded by the real binary under several configurations (incl. input "
+            "blocks of one 32-bit word).  Rule: exit 0 implies the reference says valid and the bytes equal the reference "
+            "decoding.  Parser.tla stimuli (header/trailer grammar, bit flips, truncations) are replayed through parse().",
             "Not exhaustive (seeded sampling).  Reference = BZ2.tla verdicts / the inspector calibrated against BZ2.tla.",
             "DESIGN.md 3 (C05)"),
     "C06": ("other", "TLC-generated valid files varying every legal degree of freedom (spec/BZ2.tla) + libbz2 output + legal extremes, replayed into the binary",
@@ -91,10 +92,13 @@ CLAIMED = {
             "bits, skips) are replayed through the real scan() and judged by the contract.",
             "Exhaustive over the tables; the routine is covered on the finite stimulus family of tools/inproc.py.",
             "DESIGN.md 3 (C14)"),
-    "C15": ("fault_enumeration", "exhaustive single-bit flips of every stored CRC field (located by the calibrated inspector) replayed into the binary",
+    "C15": ("fault_enumeration", "exhaustive single-bit flips of every stored CRC field (located by the calibrated inspector) replayed into the binary + Parser.tla (parse() transcribed, checked against the stream grammar) replayed through the real parse() at every suspension point",
             "For multi-block, multi-stream files (BZ2.tla-generated and real encoder output) every bit of every stored block "
-            "and stream CRC is flipped in turn; the binary must exit 1 for worker counts 1, 2, 4 and small input blocks.",
-            "Exhaustive per listed file.", "DESIGN.md 3 (C15)"),
+            "and stream CRC is flipped in turn; the binary must exit 1 for worker counts 1, 2, 4, small input blocks and "
+            "input blocks of one / two 32-bit words.  Parser.tla: TLC checks machine = grammar for every shape x {as is, "
+            "every non-payload bit flip, every truncation}; each stimulus is replayed through parse() under chunkings that "
+            "suspend it at every word and exactly at stream ends (return codes, CRCs, digits, garbage counts compared).",
+            "Exhaustive per listed file / per shape of tools/inproc.py parser_shapes.", "DESIGN.md 3 (C15), 11.2"),
     "C20": ("other", "TLC-evaluated optimality oracle (Prefix.tla: package-merge proved equal to brute force) on tables recovered from real outputs and from assign_codes()",
             "Prefix.tla: TLC proves package-merge = minimum over all complete bounded-length codes on a small domain; the same "
             "operator judges every used table recovered from what the binary writes (cost equals the optimum for the table's own "
